@@ -341,3 +341,120 @@ Definition run_case (paren : bool) (attrs : list (list hint)) (vs : list variant
             table_view (eval_consts t (consts paren vs)) vs,
             run_hits paren t vs (match dom with Some d => d | None => full_domain t end))
   end.
+
+(* ================================================================== growth round *)
+
+(* ------------------------------------------------------------------ the cast `v as repr` *)
+
+(** `v as repr` of the variant at position [i] of the declaration: its language-rule discriminant.
+    (rustc computes it; the compiled program of the check prints the same table as its oracle.) *)
+Definition cast_at (tbl : list (variant * Z)) (i : nat) : option Z := option_map snd (nth_error tbl i).
+
+(* ------------------------------------------------------------------ any evaluator *)
+
+(** The same definitions with the constant evaluator abstracted: [ev] stands for whatever rustc
+    computes for an expression at the repr type (arbitrary user expressions, any target width).
+    The theorems only ask [ev] to treat `(e) + k` and literals the way Rust does. *)
+Section AnyEvaluator.
+  Variable t : ity.
+  Variable ev : expr -> option Z.
+
+  Fixpoint rust_table_g (next : Z) (vs : list variant) : option (list (variant * Z)) :=
+    match vs with
+    | [] => Some []
+    | v :: vs' =>
+        obind (match vdiscr v with Some e => obind (ev e) (check t) | None => check t next end) (fun d =>
+        obind (rust_table_g (d + 1) vs') (fun tl => Some ((v, d) :: tl)))
+    end.
+
+  Fixpoint eval_consts_g (cs : list (variant * expr)) : option (list (variant * Z)) :=
+    match cs with
+    | [] => Some []
+    | (v, e) :: cs' =>
+        obind (ev e) (fun d => obind (eval_consts_g cs') (fun tl => Some ((v, d) :: tl)))
+    end.
+
+  Definition try_from_g (paren : bool) (vs : list variant) : option (Z -> result variant Z) :=
+    option_map first_match (eval_consts_g (consts paren vs)).
+
+  (** what the theorems need of the evaluator *)
+  Definition evaluator_ok : Prop :=
+    (forall a k, ev (EBin Add a (ELit k)) =
+                 obind (ev a) (fun x => obind (check t k) (fun y => check t (x + y)))) /\
+    (forall a, ev (EParen a) = ev a) /\
+    ev (ELit 0) = Some 0.
+End AnyEvaluator.
+
+(* ------------------------------------------------------------------ which items get an impl at all *)
+
+(** try_from.rs:13-45 `expand`: structs and unions are refused; on an enum the `#[repr]` attributes are
+    parsed first (`?`), then the `#[try_from(...)]` attributes (utils.rs `ReprConversion`, merged by
+    `parse_attrs`): none => nothing is emitted, `repr(<types>)` => "not supported yet". *)
+Inductive item_kind := KStruct | KEnum | KUnion.
+Inductive tf_arg :=
+| TARepr                 (* `#[try_from(repr)]` *)
+| TAReprTypes            (* `#[try_from(repr(T, ..))]` *)
+| TAInvalid.             (* anything `ReprConversion::parse` rejects: `#[try_from(foo)]`, `#[try_from]`, `= ..` *)
+Inductive conv := CDiscriminant | CTypes.
+Inductive decision := DError | DNoImpl | DImpl.
+
+(** utils.rs `ReprConversion::merge_attrs` *)
+Definition merge_conv (prev new : conv) : option conv :=
+  match prev, new with
+  | CTypes, CTypes => Some CTypes
+  | _, _ => None
+  end.
+
+(** utils.rs `parse_attrs_with` over the `try_from` attributes; outer None = syn::Error *)
+Fixpoint parse_tf (merged : option conv) (attrs : list tf_arg) : option (option conv) :=
+  match attrs with
+  | [] => Some merged
+  | a :: rest =>
+      match a with
+      | TAInvalid => None
+      | _ =>
+          let parsed := match a with TARepr => CDiscriminant | _ => CTypes end in
+          match merged with
+          | Some prev => obind (merge_conv prev parsed) (fun m => parse_tf (Some m) rest)
+          | None => parse_tf (Some parsed) rest
+          end
+      end
+  end.
+
+Definition expand_decision (k : item_kind) (repr_attrs : list (list hint)) (tf : list tf_arg) : decision :=
+  match k with
+  | KStruct | KUnion => DError
+  | KEnum =>
+      match repr_of repr_attrs with
+      | None => DError
+      | Some _ =>
+          match parse_tf None tf with
+          | None => DError
+          | Some None => DNoImpl                (* try_from.rs:79-81 `if self.attr.is_none() { return; }` *)
+          | Some (Some CTypes) => DError        (* "`#[try_from(repr(...))]` attribute is not supported yet" *)
+          | Some (Some CDiscriminant) => DImpl
+          end
+      end
+  end.
+
+(* ------------------------------------------------------------------ impl header with bounds, defaults and where-clause *)
+
+(** a generic parameter as declared on the enum: inline bounds and a default (token text) *)
+Record gparam_decl := { gp : gparam; gp_bounds : str; gp_default : option str }.
+
+Record header_full := {
+  hf_params : list (gparam * str);      (* `impl<...>`: parameter + its inline bounds, never a default *)
+  hf_trait_arg : str * list str;
+  hf_self : str * list str;
+  hf_where : str                        (* where-clause, token text *)
+}.
+
+(** try_from.rs:83,124-128 with syn's `Generics::split_for_impl`: `ImplGenerics` prints the parameters
+    with their bounds and WITHOUT defaults, `TypeGenerics` prints the bare names, the where-clause is
+    passed on unchanged *)
+Definition gen_header_full (on_repr : bool) (repr_name enum_name : str) (ps : list gparam_decl) (w : str) : header_full :=
+  let ips := map (fun p => (gp p, gp_bounds p)) ps in
+  let args := map (fun p => garg (gp p)) ps in
+  if on_repr
+  then {| hf_params := ips; hf_trait_arg := (repr_name, args); hf_self := (enum_name, []); hf_where := w |}
+  else {| hf_params := ips; hf_trait_arg := (repr_name, []); hf_self := (enum_name, args); hf_where := w |}.
